@@ -21,9 +21,9 @@ func GenCfgElem(t *rapid.T, kind, elem string) Cfg {
 	c := GenCfg(t, kind)
 	c.Elem = elem
 	switch c.Cmp {
-	case dom.Mag:
+	case dom.Mag, dom.Big32:
 		c.Cmp = dom.Nat
-	case "revmag":
+	case "revmag", dom.Ext:
 		c.Cmp = dom.Rev
 	}
 	return c
@@ -33,13 +33,17 @@ func GenCfg(t *rapid.T, kind string) Cfg {
 	c := Cfg{Kind: kind}
 	switch kind {
 	case "treeset", "priorityqueue", "treemap", "treebidimap", "redblacktree", "avltree", "btree", "binaryheap":
-		c.Cmp = []string{dom.Nat, dom.Rev, dom.Mag, "revmag"}[rapid.IntRange(0, 3).Draw(t, "cmp")]
+		c.Cmp = []string{dom.Nat, dom.Rev, dom.Mag, "revmag", dom.Big32, dom.Ext}[rapid.IntRange(0, 5).Draw(t, "cmp")]
 	}
 	if kind == "circularbuffer" {
-		c.Cap = []int{1, 2, 3, 4, 7, 8, 16, 33, 64, 100}[rapid.IntRange(0, 9).Draw(t, "cap")]
+		caps := []int{1, 2, 3, 4, 7, 8, 16, 33, 64, 100}
+		if Ladder != nil && rapid.IntRange(0, 9).Draw(t, "large-ring") == 6 {
+			caps = LargeCaps
+		}
+		c.Cap = caps[rapid.IntRange(0, len(caps)-1).Draw(t, "cap")]
 	}
 	if kind == "btree" {
-		c.Order = []int{3, 4, 5, 8, 9, 16}[rapid.IntRange(0, 5).Draw(t, "order")]
+		c.Order = []int{3, 4, 5, 8, 9, 16, 129, 300}[rapid.IntRange(0, 7).Draw(t, "order")]
 	}
 	return c
 }
@@ -84,6 +88,19 @@ func GenBytes(t *rapid.T) []byte {
 	}
 }
 
+// Ladder lists the value counts of rare huge variadic calls (nil: none).  A check
+// sets it to what its per-step cost allows.
+var Ladder []int
+
+// LadderRepeatCap bounds the repeat count taken from the ladder (every repetition is a reflective call).
+var LadderRepeatCap = 2100
+
+// LadderOdds: one bulk draw in 80*LadderOdds is a ladder step.
+var LadderOdds = 4
+
+// LargeCaps are the ring capacities drawn (one configuration in ten) when Ladder is set.
+var LargeCaps = []int{255, 300, 1000, 1025, 2048, 4100}
+
 var iterCalls = []string{"Next", "Next", "Next", "Prev", "Prev", "Begin", "End", "First", "Last", "NextTo", "PrevTo", "Value", "Value", "Key", "Index", "Node"}
 
 // GenRot draws the per-case rotation of the method table.  rapid's integer
@@ -112,12 +129,18 @@ func genStep(t *rapid.T, methods []string, rot int, small bool) Step {
 			s.N = rapid.IntRange(20, 160).Draw(t, "repeat")
 			if small {
 				s.N = 12 + s.N%24
+			} else if Ladder != nil && rapid.IntRange(0, 39).Draw(t, "repeat-ladder") == 23 {
+				s.N = min(Ladder[rapid.IntRange(0, len(Ladder)-1).Draw(t, "ladder")], LadderRepeatCap) // e.g. more enqueues than a large ring holds
 			}
 			s.V = 1
 		case 1, 2: // one variadic call with many values
 			s.V = []int{8, 9, 16, 33, 64, 70, 129, 300}[rapid.IntRange(0, 7).Draw(t, "many")]
 			if small {
 				s.V = 8 + s.V%3
+			}
+		case 41: // (a mid-range value: rapid's integer draws favour the small ones) the size ladder: past the thresholds at which an implementation may switch strategy
+			if Ladder != nil && !small && rapid.IntRange(0, LadderOdds-1).Draw(t, "ladder-step") == 0 {
+				s.V = Ladder[rapid.IntRange(0, len(Ladder)-1).Draw(t, "ladder")]
 			}
 		}
 	}
